@@ -179,7 +179,7 @@ func init() {
 			pool.Map(raw, func(i int, b []byte, err error) {
 				var r c16Result
 				if err != nil {
-					r.Viol = []string{"worker crashed: " + err.Error()}
+					r.Viol = explore.CrashViol(err)
 				} else {
 					json.Unmarshal(b, &r)
 				}
@@ -211,7 +211,7 @@ func init() {
 			pool.Map(raw, func(i int, b []byte, err error) {
 				var r c13Result
 				if err != nil {
-					r.Viol = []string{"worker crashed: " + err.Error()}
+					r.Viol = explore.CrashViol(err)
 				} else {
 					json.Unmarshal(b, &r)
 				}
